@@ -10,6 +10,7 @@ import (
 	"fmt"
 	stdio "io"
 	"strings"
+	"time"
 
 	kio "github.com/flanglet/kanzi-go/v2/io"
 )
@@ -128,26 +129,28 @@ func runWrm(c *Ctx, _ []string) {
 		w, err := kio.NewWriter(sink, "NONE", "NONE", uint(B), uint(jobs), 0, hint, false)
 		out := strings.Builder{}
 		closedOK := false
-		if err != nil {
-			out.WriteString("NEWERR ")
-		} else {
-			pos := 0
-			for _, o := range ops {
-				if o.kind == "w" {
-					buf := make([]byte, o.n)
-					for k := range buf {
-						buf[k] = dataByte(pos + k)
+		c.Watchdog(60*time.Second, map[string]any{"case": line}, func() {
+			if err != nil {
+				out.WriteString("NEWERR ")
+			} else {
+				pos := 0
+				for _, o := range ops {
+					if o.kind == "w" {
+						buf := make([]byte, o.n)
+						for k := range buf {
+							buf[k] = dataByte(pos + k)
+						}
+						pos += o.n
+						k, err := w.Write(buf)
+						fmt.Fprintf(&out, "W%d:%s ", k, errTag(err))
+					} else {
+						cerr := w.Close()
+						closedOK = cerr == nil
+						fmt.Fprintf(&out, "C:%s ", errTag(cerr))
 					}
-					pos += o.n
-					k, err := w.Write(buf)
-					fmt.Fprintf(&out, "W%d:%s ", k, errTag(err))
-				} else {
-					cerr := w.Close()
-					closedOK = cerr == nil
-					fmt.Fprintf(&out, "C:%s ", errTag(cerr))
 				}
 			}
-		}
+		})
 		kio.VerifHook.Store(nil)
 		ci := parseContainer(sink.buf.Bytes(), false, 0)
 		for k, f := range ci.Frames {
